@@ -285,7 +285,9 @@ func assignProfile() Profile {
 	}
 	values := func() []*Node {
 		return []*Node{pr("1"), pr("[1]"), Probe(0, List(Num(1), Num(2))), Probe(0, Tuple(Num(1), Num(2), Num(3))),
-			Probe(0, Tuple(Tuple(Num(1), Num(2)), Num(3))), pr("None"), Probe(0, Str("ab")), Probe(0, DictE(Num(1), Num(2)))}
+			Probe(0, Tuple(Tuple(Num(1), Num(2)), Num(3))), pr("None"), Probe(0, Str("ab")), Probe(0, DictE(Num(1), Num(2))),
+			// displays written out on the right-hand side (what a compiler may assign element by element)
+			Tuple(pr("1"), pr("2")), List(pr("1"), pr("2")), Tuple(pr("1"), pr("2"), pr("3"))}
 	}
 	augOps := []string{"+=", "-=", "*=", "|=", "//=", "%=", "&=", "^=", "<<=", ">>="}
 	sS, vS := simple(), values()
